@@ -73,6 +73,9 @@ pub fn normalise_msg(m: &str) -> String {
 }
 
 fn crate_relative(file: &str) -> String {
+    if file.starts_with("rustemo-compiler/src/") || file.starts_with("rustemo/src/") {
+        return file.to_string();
+    }
     for marker in ["/rustemo-compiler/src/", "/rustemo/src/"] {
         if let Some(p) = file.find(marker) {
             return file[p + 1..].to_string();
@@ -87,7 +90,7 @@ fn crate_relative(file: &str) -> String {
 /// shifts, distinct per call site.
 pub fn panic_key(paths: &Paths, p: &PanicInfo) -> String {
     // prefer the first rustemo frame when the panic was raised inside a dependency
-    let (file, line) = if (p.file.contains("/rustemo-compiler/src/") || p.file.contains("/rustemo/src/") || p.file.starts_with("src/")) && !p.file.contains("/.cargo/") {
+    let (file, line) = if (p.file.contains("/rustemo-compiler/src/") || p.file.contains("/rustemo/src/") || p.file.starts_with("src/") || p.file.starts_with("rustemo")) && !p.file.contains("/.cargo/") {
         (p.file.clone(), p.line)
     } else if !p.frame.is_empty() {
         let mut it = p.frame.rsplitn(2, ':');
